@@ -44,7 +44,7 @@ def main():
             if not pids or pid in pids:
                 jobs.append((pid, os.path.join(os.path.dirname(m), "patch.diff")))
     bad = 0
-    with ThreadPoolExecutor(12) as ex:
+    with ThreadPoolExecutor(5) as ex:
         for pid, patch, status, info in ex.map(one, jobs):
             print(f"{status:14s} {pid} {os.path.relpath(patch, ROOT)}  {info}")
             bad += status != "caught"
